@@ -146,6 +146,32 @@ CHECKS["C14"] = (
     "DESIGN.md section 3, C14",
 )
 
+CHECKS["C01"] = (
+    "SOLV + CPX",
+    "model_checking",
+    "bounded exhaustive enumeration of solver instances (grammar x constraint schema x settings) x solve() call prefixes x random-answer deviations; every returned tree re-checked against the reference semantics",
+    "For five grammars, one constraint per formula schema of the typed universe (plus the trivial constraint) is solved under the default "
+    "settings, and a core of constraints under nine settings (instantiation limits, optimized Z3 queries off, unique trees, insertion methods, "
+    "unsat support). solve() is called up to 5 (thorough 8) times and EVERY returned tree is checked: closed, grammar-valid, rooted in "
+    "<start>, and satisfying the ORIGINAL constraint under the reference semantics (the solver's own assertion only evaluates the residual "
+    "constraint). All random answers are owned by the choice-point explorer: one fixed default schedule for every instance, plus every "
+    "single deviation within the first 12 (30) choice points on the core.",
+    "Reference semantics as in C03. Runs cut by the wall-clock cap, and replays that diverge (Z3 timing), are counted and not judged.",
+    "DESIGN.md section 3, C01",
+)
+
+CHECKS["C02"] = (
+    "SOLV + CPX",
+    "model_checking",
+    "exhaustive exploration of solve() call sequences against a three-state lifecycle automaton, incl. every placement of the deadline on a virtual clock",
+    "(1) every C01 instance: 4 calls plus 3 calls after the first StopIteration/TimeoutError; (2) every operator skeleton of the C05 "
+    "alphabet as a solver constraint; (3) eight instances under a virtual clock (isla.solver.time replaced) with the deadline placed at "
+    "every clock poll of the run and the clock standing still or advancing afterwards. Oracle: the automaton ACTIVE -> {ACTIVE, EXHAUSTED, "
+    "TIMED_OUT} with absorbing sinks; any other exception type escaping solve(), or a different outcome after a sink, is a violation.",
+    "Constraints the constructor rejects are outside the domain. A suspected violation that does not reproduce from a clean process is counted, not reported.",
+    "DESIGN.md section 3, C02",
+)
+
 NOT_YET = "check not built yet in this round (planned in DESIGN.md section 3)"
 
 
